@@ -247,6 +247,48 @@ func c19RecovererValue(c *Check, P string, m *MW, e ssa.Value, r *ssa.Return, k 
 	for _, ret := range Returns(dcl) {
 		c.Report(Dominates(dcl, recs[0], ret), P+".O1", "RECOVER-ALWAYS", dcl, ret.Pos(), "Recoverer recover()", "recover() is called on every path of the deferred closure")
 	}
+	// the error type that carries the panic value: its methods are called by errors.Is/As/Unwrap walks and by loggers on
+	// whatever value was panicked with; none of them may trap on it
+	var boxed []*ssa.MakeInterface
+	var find func(v ssa.Value, d int)
+	find = func(v ssa.Value, d int) {
+		if v == nil || d > 4 {
+			return
+		}
+		for _, o := range Origins(v) {
+			switch x := o.(type) {
+			case *ssa.MakeInterface:
+				boxed = append(boxed, x)
+			case *ssa.Call:
+				for _, a := range x.Call.Args {
+					find(a, d+1)
+				}
+			}
+		}
+	}
+	find(e, 0)
+	for _, mi := range boxed {
+		{
+			if named := NamedOf(mi.X.Type()); named != nil && named.Obj().Pkg() != nil && named.Obj().Pkg() == I.Pkg.Pkg {
+				for i := 0; i < named.NumMethods(); i++ {
+					mf := c.P.SSA.FuncValue(named.Method(i))
+					if mf == nil || len(mf.Blocks) == 0 {
+						continue
+					}
+					traps := 0
+					AllInstrs(mf, func(in ssa.Instruction) {
+						if what := trapOf(in); what != "" {
+							traps++
+							c.Report(false, P+".O1", "PANIC-ERROR-METHODS-TOTAL", mf, in.Pos(), named.Obj().Name()+"."+mf.Name()+": "+what, "a method of the recovered-panic error works for every panic value (an unchecked assertion on the value re-panics inside errors.Is/As: the panic escapes the Recoverer after all)")
+						}
+					})
+					if traps == 0 {
+						c.Report(true, P+".O1", "PANIC-ERROR-METHODS-TOTAL", mf, mf.Pos(), named.Obj().Name()+"."+mf.Name(), "a method of the recovered-panic error works for every panic value")
+					}
+				}
+			}
+		}
+	}
 }
 
 func c19Breaker(c *Check, P string, m *MW, hc ssa.CallInstruction) {
@@ -282,7 +324,16 @@ func c19Breaker(c *Check, P string, m *MW, hc ssa.CallInstruction) {
 				v = e.Tuple
 			}
 			ta, ok := v.(*ssa.TypeAssert)
-			return ok && AllOrigins(ta.X, func(x ssa.Value) bool { return IsResultOf(x, ex, 0) })
+			if !ok || !AllOrigins(ta.X, func(x ssa.Value) bool { return IsResultOf(x, ex, 0) }) {
+				return false
+			}
+			// the asserted type is the dynamic type the callback boxes (a different named type never matches: all outputs would be dropped)
+			for _, r2 := range Returns(cb) {
+				if mi, isMI := firstOrigin(r2.Results[0]).(*ssa.MakeInterface); isMI && !types.Identical(mi.X.Type(), ta.AssertedType) {
+					return false
+				}
+			}
+			return true
 		})
 		c.Report(okE, P+".O1", "ERROR-UNCHANGED", I, r.Pos(), k, "the returned error is Execute's (the handler's, or the breaker's own)")
 		c.Report(okO, P+".O1", "OUTPUTS-UNCHANGED", I, r.Pos(), k, "the returned messages are Execute's result")
